@@ -34,7 +34,7 @@ def run(tier, seed):
                     x, used = g.pair(outer, pos, inner)
                     if not used:
                         continue
-                    forms = [[S("list"), x]]
+                    forms = g.prelude + [[S("list"), x]]
                     if usable(forms):
                         progs.append(("pair:%s/%s/%s" % (outer, pos, inner), forms)); got += 1
                     if got >= reps:
